@@ -344,7 +344,7 @@ def params(nbits):
 
 def conds(tier):
     q = tier == "quick"
-    nb = 5 if q else 8
+    nb = 5 if q else 6
     return [Cond("handover", mk(nb), params(nb), pin=3, builds=("C", "P"), budget=300 if q else 1500, per_path=120,
                  family="two threads, hand-over window of %d symbolic bits at a symbolic offset (0..24); programs use DebugBatchItem, deduplicate, contexts, "
                         "COLLECT_PERF_STATS" % nb, encodes=ENC)]
